@@ -25,11 +25,13 @@ CLAIMS = {
             'interpretations of the user functions (over the regenerated _make_hash bodies); hence equal hashes give equal values across graphs; '
             'Silent independence exactly; digests exact, Python == exact without numeric leaves. Hash terms of model and engine are compared on every case.',
             'pickler/digest injectivity trusted; External markers not modelled; F3 (== on leaves) is a known finding'),
-    'C06': ('Theorems: the regenerated static hash of a Merge switch determines the routing table and the branch hashes; function, product and '
-            'constant edges are injective in their parts; the input placeholder is no constant; the pinned body is refuted (F1). Graph.hash() terms of '
-            'model and engine are compared; families of sub-pipeline variants are checked for collisions on the real code.',
-            'the full "equal static hash => same function of the id" is proved per edge (injectivity), composed only by the collision oracle; '
-            'Filter/GroupBy/Join/Split edges are covered by translated hash makers and the oracle, not by the VM model'),
+    'C06': ('Theorems: a static hash reads back as a function of the entry id (placeholder = the id, a switch node = look the id up in the stored routing '
+            'table) and for every graph of function, constant, identity, product, cache, barrier, hash-by-value, switch and CheckIds edges that function is what '
+            'the sub-pipeline computes; hence equal static hashes of ANY two such sub-pipelines give the same function of the id (over the regenerated _hash_graph '
+            'bodies; the pinned SwitchEdge body is refuted, F1). Per-edge injectivity lemmas; Graph.hash() terms of model and engine are compared; families of '
+            'sub-pipeline variants are checked for collisions on the real code.',
+            'sub-pipelines that themselves contain Filter / GroupBy / Join / Split edges (a static hash nested in a static hash) are covered by the translated hash '
+            'makers and the collision oracle, not by the whole-graph theorem; switch tables are assumed to be dicts (no two ==-equal keys)'),
     'C07': ('Theorems: identity/cache/CheckIds/column/barrier edges are hash-transparent, a switch reports the selected branch hash, Silent '
             'arguments do not enter the hash (regenerated hash makers). The digests of real pipelines are compared under 12 neutral rewrites and in 3 '
             'interpreters with different string-hash seeds.',
@@ -62,12 +64,11 @@ CLAIMS = {
             'translator patterns (a change there is reported without a concrete input unless the single-field harness exhibits it)'),
     'C12': ('Theorems on a model of the two-level content-addressed store at the granularity of single file-system mutations: for every interleaving of process '
             'steps, process deaths, loss of any blobs, loss or truncation of any index files and new processes, every answered call returns the value of its '
-            'entry and no write meets a conflicting index; a hit names only present blobs; an uninterrupted call always ends with the entry readable. The real '
+            'entry and no write meets a conflicting index; a hit names only present blobs; an uninterrupted call always ends with the entry readable, for any acyclic nesting of disk caches. The real '
             'store is run with every mutator intercepted: the tree before each mutation (checked against real kills), undamaged and under fault sets, is given '
             'to fresh pipelines and compared with the model and with a cache-free oracle.',
             'tarn is a trusted dependency that is exercised, not translated; the tie is the abstraction of real directory trees; a process death keeps the page '
-            'cache (a machine crash that loses renamed data is outside); concurrency of writers is outside C12; recovery is proved for entries whose computation '
-            'reads no other disk entry (stacked caches are covered by the safety theorem and the correspondence)'),
+            'cache (a machine crash that loses renamed data is outside); concurrency of writers is outside C12'),
     'C13': ('Theorems: the regenerated _detect_impure walk rejects exactly the graphs with an ImpureEdge reachable through parents from a cached output, for all '
             'DAGs; an impure edge has no static hash, so every keyed layer above it fails to build. Random pipelines with impure fields and every cache / keyed '
             'layer kind are built on the real code and compared (accepted vs rejected, and that impure functions run on every call when allowed).',
